@@ -515,7 +515,7 @@ func c07(c *Ctx) {
 		}
 	})
 
-	c.Rule("C07.R5b", "sibling agreement: the two not-found branches of a merge site (new tag set under a known name / new name) build the new series identically", 12, func(r *Rule) {
+	c.Rule("C07.R5b", "sibling agreement: the two not-found branches of a merge site (new tag set under a known name / new name) build the new series identically", 6, func(r *Rule) {
 		for _, s := range sites {
 			// outer lookup: comma-ok lookup on the collection type map[string]map[string]T
 			var outerElse *ssa.BasicBlock
@@ -544,7 +544,19 @@ func c07(c *Ctx) {
 			})
 			key := FuncName(s.Fn) + ":" + s.T + ":not-found-siblings"
 			if outerElse == nil {
-				r.Fail(key, s.Lookup.Pos(), "no enclosing comma-ok lookup of the metric name found; cannot identify the new-name branch")
+				// the series lookup is not under a test of the name lookup: when it reads the (possibly nil)
+				// per-name map that the name lookup returned, one builder serves both not-found cases
+				single := false
+				if ex, ok := s.Lookup.X.(*ssa.Extract); ok && ex.Index == 0 {
+					if lk, ok := ex.Tuple.(*ssa.Lookup); ok && lk.CommaOk {
+						if mt, ok := lk.X.Type().Underlying().(*types.Map); ok {
+							if inner, ok := mt.Elem().Underlying().(*types.Map); ok && isAggType(inner.Elem()) == s.T {
+								single = true
+							}
+						}
+					}
+				}
+				r.Check(key, single, s.Lookup.Pos(), "no enclosing test of the metric-name lookup: the series lookup must read the per-name map that lookup returned (one builder for both not-found cases)")
 				continue
 			}
 			feat := func(head *ssa.BasicBlock, excl *ssa.BasicBlock) []string {
@@ -809,7 +821,22 @@ func writeBackRule(r *Rule, fn *ssa.Function) int {
 			evCopy = iota
 			evDirty
 			evWriteBack
+			evTransfer   // the whole (modified) copy is assigned to another local of the same type
+			evWriteOther // that other local is stored into a map
 		)
+		// locals that receive a whole copy of a
+		heirs := map[*ssa.Alloc]bool{}
+		for _, ref := range referrers(a) {
+			if ld, ok := ref.(*ssa.UnOp); ok && ld.Op == token.MUL {
+				for _, r2 := range referrers(ld) {
+					if st, ok := r2.(*ssa.Store); ok && st.Val == ssa.Value(ld) {
+						if b, ok := st.Addr.(*ssa.Alloc); ok && b != a {
+							heirs[b] = true
+						}
+					}
+				}
+			}
+		}
 		res := runAutomaton(fn, 0, func(in ssa.Instruction) int {
 			switch x := in.(type) {
 			case *ssa.Store:
@@ -822,23 +849,44 @@ func writeBackRule(r *Rule, fn *ssa.Function) int {
 				if fa, ok := x.Addr.(*ssa.FieldAddr); ok && fa.X == ssa.Value(a) {
 					return evDirty
 				}
+				if b, ok := x.Addr.(*ssa.Alloc); ok && heirs[b] {
+					if ld, ok := x.Val.(*ssa.UnOp); ok && ld.Op == token.MUL && ld.X == ssa.Value(a) {
+						return evTransfer
+					}
+				}
 			case *ssa.MapUpdate:
-				if ld, ok := x.Value.(*ssa.UnOp); ok && ld.Op == token.MUL && ld.X == ssa.Value(a) {
-					return evWriteBack
+				if ld, ok := x.Value.(*ssa.UnOp); ok && ld.Op == token.MUL {
+					if ld.X == ssa.Value(a) {
+						return evWriteBack
+					}
+					if b, ok := ld.X.(*ssa.Alloc); ok && heirs[b] {
+						return evWriteOther
+					}
 				}
 			}
 			return -1
 		}, func(state, ev int) int {
+			// 0 clean, 1 modified, 2 modified and handed to another local that still has to be stored
 			switch ev {
 			case evCopy, evWriteBack:
 				return 0
+			case evTransfer:
+				if state == 1 {
+					return 2
+				}
+				return state
+			case evWriteOther:
+				if state == 2 {
+					return 0
+				}
+				return state
 			default:
 				return 1
 			}
 		})
 		bad := ""
 		for b, st := range res.ExitStates {
-			if st&2 != 0 {
+			if st&(2|4) != 0 {
 				bad = fmt.Sprintf("a path reaches the return in block %d with the modified copy not stored back", b.Index)
 			}
 		}
